@@ -570,11 +570,83 @@ pub fn record_directed_ctl(a: &Args, out: &mut TraceOut, long_polls: bool) -> Va
     json!({"directed_runs": runs})
 }
 
+/// Every reply a sign could give at the query that concludes a transfer attempt, for transfers of every size class
+/// (configuration, one chunk, a real page, several hundred chunks, beyond a thousand), on the first attempt and on the
+/// attempt after a reported failure; whatever came before, the bus is cooperative afterwards, so a controller that
+/// carries on after a reply it must not accept is seen to carry on.
+pub fn record_conclusions(a: &Args, out: &mut TraceOut) -> Value {
+    let thorough = a.tier == "thorough";
+    let mut runs = 0usize;
+    let me = 0x0203u16;
+    let a_ = Address(me);
+    let mut finals: Vec<Reply> = vec![];
+    for s in j::STATES {
+        finals.push(Reply::Msg(Message::ReportState(a_, s)));
+    }
+    for s in [State::PixelsReceived, State::ConfigReceived, State::PixelsInProgress, State::PixelsFailed] {
+        finals.push(Reply::Msg(Message::ReportState(Address(me ^ 0x100), s)));
+    }
+    finals.push(Reply::Msg(Message::AckOperation(a_, Operation::ReceivePixels)));
+    finals.push(Reply::Msg(Message::QueryState(a_)));
+    finals.push(Reply::None);
+    finals.push(Reply::BusError);
+    // (chunks per page, pages); 0 chunks = a configure call
+    let mut sizes: Vec<(usize, usize)> = vec![(0, 0), (1, 1), (21, 2), (513, 1), (300, 2)];
+    if thorough {
+        sizes.extend_from_slice(&[(1100, 1), (4095, 1), (2, 300)]);
+    }
+    for (chunks, npages) in sizes {
+        let name = if chunks == 0 { "configure" } else { "send_pages" };
+        let pages: Vec<Page<'static>> = (0..npages).map(|i| { let mut b = vec![0x33u8; chunks * 16]; b[0] = i as u8; page_of(&b) }).collect();
+        for (fi, fin) in finals.iter().enumerate() {
+            for attempt in 0..2usize {
+                if attempt == 1 && !thorough && chunks > 100 && fi % 3 != 0 {
+                    continue;
+                }
+                out.balance();
+                let fin_json = reply_json(fin);
+                let mut queries = 0usize;
+                let nm = name.to_string();
+                let bus = Rc::new(RefCell::new(ScriptedBus {
+                    next: Box::new(move |_, m| {
+                        let (ok, bad) = if nm == "send_pages" { (State::PixelsReceived, State::PixelsFailed) } else { (State::ConfigReceived, State::ConfigFailed) };
+                        Some(match m {
+                            Message::Hello(_) => Reply::Msg(Message::ReportState(a_, State::Unconfigured)),
+                            Message::RequestOperation(_, op) => Reply::Msg(Message::AckOperation(a_, *op)),
+                            Message::QueryState(_) => {
+                                queries += 1;
+                                if queries == attempt + 1 {
+                                    reply_from(&fin_json)
+                                } else if queries <= attempt {
+                                    Reply::Msg(Message::ReportState(a_, bad))
+                                } else {
+                                    Reply::Msg(Message::ReportState(a_, ok))
+                                }
+                            }
+                            _ => Reply::None,
+                        })
+                    }),
+                    log: vec![],
+                    exhausted: false,
+                }));
+                let typ = ALL_TYPES[(fi + attempt) % 11];
+                let sign = Sign::new(bus.clone(), a_, typ);
+                let outc = run_call_with_kind(&sign, name, &pages, &bus, fi + attempt);
+                let b = bus.borrow();
+                emit_conversation(out, name, me, typ, &pages, &b.log, &outc);
+                runs += 1;
+            }
+        }
+    }
+    json!({"conclusion_runs": runs})
+}
+
 pub fn record_c10(a: &Args) -> usize {
     let mut out = TraceOut::new(&a.out, "C10", a.shards);
     let d = record_directed_ctl(a, &mut out, true);
     println!("INFO {}", json!({"directed": d}));
     let adv = record_adversarial(a, &mut out, 0xC10, if a.tier == "thorough" { 40_000 } else { 2_000 });
+    let _ = record_conclusions(a, &mut out);
     let mut small = Args { tier: "quick".into(), seed: a.seed, out: a.out.clone(), shards: a.shards, rest: vec![] };
     small.tier = "quick".into();
     let t = record_transfers(&small, &mut out, false);
@@ -586,7 +658,8 @@ pub fn record_c11(a: &Args) -> usize {
     let mut out = TraceOut::new(&a.out, "C11", a.shards);
     let adv = record_adversarial(a, &mut out, 0xC11, if a.tier == "thorough" { 40_000 } else { 2_000 });
     let d = record_directed_ctl(a, &mut out, false);
-    println!("INFO {}", json!({"adversarial": adv, "directed": d}));
+    let c = record_conclusions(a, &mut out);
+    println!("INFO {}", json!({"adversarial": adv, "directed": d, "conclusions": c}));
     out.finish()
 }
 
